@@ -7,6 +7,7 @@ import SV.TxCache.ListsInvProofs
 import SV.TxCache.EvictPost
 import SV.TxCache.ReachableProofs
 import SV.GenProofs.TxThresholds
+import SV.GenProofs.TxLists
 namespace SV.Props.C04
 open SV SV.TxCache
 
@@ -80,5 +81,18 @@ theorem hash_index_equals_reference_after_any_history (U : Bytes → Tx) (cfg : 
 theorem source_sender_limit_test_is_the_models (cfg : Config) (l : List Tx) :
     senderExceeded cfg l = Gen.senderExceeded cfg.numBytesPerSender cfg.countPerSender (listBytes l) l.length :=
   GenProofs.senderExceeded_eq cfg l
+
+/-- one iteration of the source's `findInsertionPlace` (translated: 0 = go on towards the front, 1 = insert right after this
+    element, 2 = already in the cache) is the decision the model's sorted insertion takes at that element -/
+theorem source_insertion_walk_is_the_models (t c : Tx) (rest : List Tx) :
+    insertRev t (c :: rest) =
+      (if Gen.insertionStep t.nonce t.gasPrice c.nonce c.gasPrice c.hash t.hash = 1 then some (t :: c :: rest)
+       else if Gen.insertionStep t.nonce t.gasPrice c.nonce c.gasPrice c.hash t.hash = 2 then none
+       else (insertRev t rest).map (c :: ·)) := GenProofs.insertRev_cons_eq_source t c rest
+/-- RemoveTxByHash's walk over the sender's list stops where the source's loop breaks (first nonce above the removed one) -/
+theorem source_lower_nonce_removal_is_the_models (n : Nat) (c : Tx) (rest : List Tx) :
+    dropLowerOrEqual n (c :: rest) =
+      (if Gen.removeLowerStops c.nonce n = [true] then c :: rest else dropLowerOrEqual n rest) :=
+  GenProofs.dropLowerOrEqual_cons_eq_source n c rest
 
 end SV.Props.C04
